@@ -405,7 +405,7 @@ func (e *Environment) CreateOrSet(name string, val Object, create bool) Object {
 		old, ok := e.Get(name) // not ok
 		if ok {
 			log.Infof("Attempt to change constant %s from %v to %v", name, old, val)
-			if !Equals(old, val) {
+			if !sameValue(old, val) {
 				return Error{Value: fmt.Sprintf("attempt to change constant %s from %s to %s", name, old.Inspect(), val.Inspect())}
 			}
 		}
@@ -414,6 +414,43 @@ func (e *Environment) CreateOrSet(name string, val Object, create bool) Object {
 		return Error{Value: fmt.Sprintf("attempt to change internal function %s to %s", name, val.Inspect())}
 	}
 	return e.SetNoChecks(name, val, create)
+}
+
+// sameValue is Equals plus the same type at every level. Cmp orders 1 and 1.0 as equal, also inside arrays
+// and maps: right for sorting and ==, but it would let the constant [1,2] be replaced by [1.0,2].
+func sameValue(left, right Object) bool {
+	return Equals(left, right) && sameTypes(left, right)
+}
+
+// sameTypes: same type, and for arrays and maps the same types element by element (keys and values).
+func sameTypes(left, right Object) bool {
+	left, right = Value(left), Value(right)
+	if !TypeEqual(left.Type(), right.Type()) {
+		return false
+	}
+	switch left.Type() { //nolint:exhaustive // only containers have elements.
+	case ARRAY:
+		le, re := Elements(left), Elements(right)
+		if len(le) != len(re) {
+			return false
+		}
+		for i := range le {
+			if !sameTypes(le[i], re[i]) {
+				return false
+			}
+		}
+	case MAP:
+		lkv, rkv := left.(Map).mapElements(), right.(Map).mapElements()
+		if len(lkv) != len(rkv) {
+			return false
+		}
+		for i := range lkv {
+			if !sameTypes(lkv[i].Key, rkv[i].Key) || !sameTypes(lkv[i].Value, rkv[i].Value) {
+				return false
+			}
+		}
+	}
+	return true
 }
 
 func NewEnclosedEnvironment(outer *Environment) *Environment {
